@@ -99,12 +99,23 @@ def s_persist(F, R):
     par = _parents(b)
     # locals bound from destructuring `state` (pattern bindings under the match on state) are state places
     state_bound = set()
+    STATE_TYPES = ("GenericPollPacketState", "PollHeaderState", "GenericPollBodyState")
+
+    def is_state_ty(e):
+        return any(t in ((e or {}).get("ty") or "") for t in STATE_TYPES)
     for n in walk_all(b):
-        if n.get("k") == "Match" and pp(strip(n["scrut"])) == "state":
+        # bindings obtained by destructuring a value of one of the caller-owned state types (whatever the local is called)
+        if n.get("k") == "Match" and (is_state_ty(n["scrut"]) or is_state_ty(strip(n["scrut"]))):
             for arm in n["arms"]:
                 _collect_bindings(arm["pat"], state_bound)
-    R.check(len(state_bound) >= 7, "S-persist", "state-bindings",
-            "poll destructures only %d state fields" % len(state_bound), where=fid)
+        if n.get("k") == "Block":
+            for st in n.get("stmts", []):
+                if st.get("k") == "Let" and st.get("init") is not None and (is_state_ty(st["init"]) or is_state_ty(strip(st["init"]))):
+                    _collect_bindings(st["pat"], state_bound)
+        if n.get("k") == "If" and unblock(n["cond"]).get("k") == "Let" and is_state_ty(unblock(n["cond"])["e"]):
+            _collect_bindings(unblock(n["cond"])["pat"], state_bound)
+    R.check(len(state_bound) >= 1, "S-persist", "state-bindings",
+            "poll never destructures the caller-owned state (%d bindings found)" % len(state_bound), where=fid)
     # declaration site of each local
     decl_loop_depth = {}
     n_assign = 0
@@ -135,7 +146,7 @@ def s_persist(F, R):
                        "poll returns Pending or the future is dropped and re-created from the caller-held state" % name, where=loc(n))
             else:
                 R.ok("S-persist", "write/%s" % pp(l), "loop-local")
-    R.floor("S-persist", "assignments in poll", n_assign, 5)
+    R.floor("S-persist", "assignments in poll", n_assign, 1)      # helpers taking `&mut state` may hold most of them
     # values taken from the reader (`byte`, `size`) flow only into state places or are used in the same iteration
     for n in walk_all(b):
         if n.get("k") == "Block":
